@@ -1002,6 +1002,20 @@ func (e *Env) call(n *ast.CallExpr) tv {
 		return tv{Select(s.Dom, e.keyTerm(arg(0))), nil}
 	case "dom":
 		return tv{e.asSet(arg(0)), nil}
+	case "apply":
+		// apply(f, args...): result 0 of calling the function value f (assumed pure)
+		f := arg(0)
+		ft, ok := f.V.(*Term)
+		sig, ok2 := types.Unalias(f.T).Underlying().(*types.Signature)
+		if !ok || !ok2 {
+			evalFail("apply: first argument must be a function value")
+		}
+		var as []Value
+		for i := 1; i < len(n.Args); i++ {
+			as = append(as, e.coerceTo(arg(i), sig.Params().At(i-1).Type()))
+		}
+		r := fnApply(sig, ft, as)
+		return tv{r[0], sig.Results().At(0).Type()}
 	case "world":
 		return tv{worldOf(e.h()), nil}
 	case "ret", "worldAfter", "retW", "worldAfterW":
